@@ -280,7 +280,7 @@ def parse_func(m,ln,body):
 # ---------------------------------------------------------------- function translation
 class FX:
     def __init__(s,m,f):
-        s.m=m; s.f=f; s.types={}; s.out=[]; s.decl=[]; s.bsrc={}; s.localmem=[]; s.entry=None; s.p2isrc={}
+        s.m=m; s.f=f; s.types={}; s.out=[]; s.decl=[]; s.bsrc={}; s.localmem=[]; s.entry=None; s.p2isrc={}; s.chain={}
     def vn(s,v):  # local name
         return 'v_'+mangle(v[1:].strip('"'))
     def gname(s,g):
@@ -602,6 +602,7 @@ class Trans:
             if op=='ptrtoint' and dst is not None and isinstance(dt,IntT) and dt.b==64: fx.p2isrc[fx.vn(dst)]=sv_
             if op=='bitcast' and isinstance(st,PtrT) and isinstance(dt,PtrT) and dst is not None and not isinstance(st.e,(FnT,VoidT)) and not (isinstance(st.e,StructT) and st.e.fields is None):
                 fx.bsrc[fx.vn(dst)]=(st.e,sv_)
+                fx.chain[fx.vn(dst)]=[(st.e,sv_)]+fx.chain.get(sv_,[])
             return setv(dt,s.cast(op,st,sv_,dt))
         if op=='select':
             rest=re.sub(r'^((fast|nnan|ninf|nsz|arcp|contract|afn|reassoc)\s+)*','',rest)
@@ -665,6 +666,9 @@ class Trans:
             for p in parts[2:]:
                 it,r=m.ptype(p); idx.append((it,s.val(fx,it,r),r.strip()))
             e,rt=s.gep(bt,base,idx)
+            if dst is not None and all(ix[2] in ('0','zeroinitializer') for ix in idx) and not isinstance(bt,(FnT,VoidT)) and not (isinstance(bt,StructT) and bt.fields is None):
+                # pointer to the first member == pointer to the enclosing object: remember the enclosing typed objects (for typed memset/memcpy)
+                fx.chain[fx.vn(dst)]=[(bt,base)]+fx.chain.get(base,[])
             return setv(rt,e)
         if op=='extractvalue':
             parts=split_top(rest)
@@ -765,13 +769,21 @@ class Trans:
         if name.startswith('llvm.lifetime') or name.startswith('llvm.dbg') or name.startswith('llvm.experimental.noalias') or name=='llvm.donothing': return []
         if name.startswith('llvm.assume'): return ['__CPROVER_assume(%s);'%a[0]]
         m=s.m
-        if name.startswith('llvm.memset') and a[0] in fx.bsrc and re.match(r'^\(*\(u8\)0x0ULL\)*$',a[1].replace(' ','')):
-            et,src=fx.bsrc[a[0]]; T=m.ct(et)
-            zero='0' if isinstance(et,(IntT,FT,PtrT)) else '(%s){0}'%T
-            return ['if (sizeof(%s) == (%s)) { *(%s) = %s; } else irc_memset((u8*)%s,%s,%s);'%(T,a[2],src,zero,a[0],a[1],a[2])]
-        if name.startswith('llvm.memcpy') and a[0] in fx.bsrc and a[1] in fx.bsrc and fx.bsrc[a[0]][0].key()==fx.bsrc[a[1]][0].key():
-            et,d0=fx.bsrc[a[0]]; _,s0=fx.bsrc[a[1]]; T=m.ct(et)
-            return ['if (sizeof(%s) == (%s)) { *(%s) = *(%s); } else irc_memcpy((u8*)%s,(u8*)%s,%s);'%(T,a[2],d0,s0,a[0],a[1],a[2])]
+        def zero_of(et):
+            return '0' if isinstance(et,(IntT,FT,PtrT)) else '(%s){0}'%m.ct(et)
+        if name.startswith('llvm.memset') and a[0] in fx.chain and re.match(r'^\(*\(u8\)0x0ULL\)*$',a[1].replace(' ','')):
+            # typed zeroing when the size equals the size of one of the enclosing typed objects (keeps CBMC field-sensitive)
+            out=''
+            for (et,src) in fx.chain[a[0]]:
+                out+='if (sizeof(%s) == (%s)) { *(%s) = %s; } else '%(m.ct(et),a[2],src,zero_of(et))
+            return [out+'irc_memset((u8*)%s,%s,%s);'%(a[0],a[1],a[2])]
+        if name.startswith('llvm.memcpy') and a[0] in fx.chain and a[1] in fx.chain:
+            out=''
+            for (et,d0) in fx.chain[a[0]]:
+                for (et2,s0) in fx.chain[a[1]]:
+                    if et.key()==et2.key():
+                        out+='if (sizeof(%s) == (%s)) { *(%s) = *(%s); } else '%(m.ct(et),a[2],d0,s0)
+            if out: return [out+'irc_memcpy((u8*)%s,(u8*)%s,%s);'%(a[0],a[1],a[2])]
         if name.startswith('llvm.memcpy') : return ['irc_memcpy((u8*)%s,(u8*)%s,%s);'%(a[0],a[1],a[2])]
         if name.startswith('llvm.memmove'): return ['irc_memmove((u8*)%s,(u8*)%s,%s);'%(a[0],a[1],a[2])]
         if name.startswith('llvm.memset'): return ['irc_memset((u8*)%s,%s,%s);'%(a[0],a[1],a[2])]
@@ -854,15 +866,15 @@ static inline u64 irc_pdiff(u8* p, u8* q){ return (u64)p - (u64)q; }
 static inline int irc_isnan(double d){ return d!=d; }
 static inline double irc_fabs(double d){ return d<0?-d:(d==0?0.0:d); }
 static inline u8* irc_alloca(u64 n){ u8* p = malloc(n); __CPROVER_assume(p!=0); return p; }
-/* small copies are done bytewise WITHOUT a loop: CBMC's library memcpy rewrites the whole destination object as a byte array, which destroys
+/* small copies into NON-heap objects are done bytewise WITHOUT a loop (heap byte arrays - e.g. std::string storage - use the library memcpy): CBMC's library memcpy rewrites the whole destination object as a byte array, which destroys
    field sensitivity for every other member of the enclosing struct (function pointers, state enums) and with it constant propagation */
 static inline u8* irc_memchr(u8* s, int c, u64 n){ for (u64 i = 0; i < n; i++) if (s[i] == (u8)c) return s + i; return (u8*)0; }
 #ifdef __CPROVER__
 static inline void irc_smallcpy(u8*d,u8*s,u64 n){ u8 t0 = n > 0 ? s[0] : 0; u8 t1 = n > 1 ? s[1] : 0; u8 t2 = n > 2 ? s[2] : 0; u8 t3 = n > 3 ? s[3] : 0; u8 t4 = n > 4 ? s[4] : 0; u8 t5 = n > 5 ? s[5] : 0; u8 t6 = n > 6 ? s[6] : 0; u8 t7 = n > 7 ? s[7] : 0; u8 t8 = n > 8 ? s[8] : 0; u8 t9 = n > 9 ? s[9] : 0; u8 t10 = n > 10 ? s[10] : 0; u8 t11 = n > 11 ? s[11] : 0; u8 t12 = n > 12 ? s[12] : 0; u8 t13 = n > 13 ? s[13] : 0; u8 t14 = n > 14 ? s[14] : 0; u8 t15 = n > 15 ? s[15] : 0; u8 t16 = n > 16 ? s[16] : 0; u8 t17 = n > 17 ? s[17] : 0; u8 t18 = n > 18 ? s[18] : 0; u8 t19 = n > 19 ? s[19] : 0; u8 t20 = n > 20 ? s[20] : 0; u8 t21 = n > 21 ? s[21] : 0; u8 t22 = n > 22 ? s[22] : 0; u8 t23 = n > 23 ? s[23] : 0; if (n > 0) d[0] = t0; if (n > 1) d[1] = t1; if (n > 2) d[2] = t2; if (n > 3) d[3] = t3; if (n > 4) d[4] = t4; if (n > 5) d[5] = t5; if (n > 6) d[6] = t6; if (n > 7) d[7] = t7; if (n > 8) d[8] = t8; if (n > 9) d[9] = t9; if (n > 10) d[10] = t10; if (n > 11) d[11] = t11; if (n > 12) d[12] = t12; if (n > 13) d[13] = t13; if (n > 14) d[14] = t14; if (n > 15) d[15] = t15; if (n > 16) d[16] = t16; if (n > 17) d[17] = t17; if (n > 18) d[18] = t18; if (n > 19) d[19] = t19; if (n > 20) d[20] = t20; if (n > 21) d[21] = t21; if (n > 22) d[22] = t22; if (n > 23) d[23] = t23; }
 static inline void irc_smallset(u8*d,u8 v,u64 n){ if (n > 0) d[0] = v; if (n > 1) d[1] = v; if (n > 2) d[2] = v; if (n > 3) d[3] = v; if (n > 4) d[4] = v; if (n > 5) d[5] = v; if (n > 6) d[6] = v; if (n > 7) d[7] = v; if (n > 8) d[8] = v; if (n > 9) d[9] = v; if (n > 10) d[10] = v; if (n > 11) d[11] = v; if (n > 12) d[12] = v; if (n > 13) d[13] = v; if (n > 14) d[14] = v; if (n > 15) d[15] = v; if (n > 16) d[16] = v; if (n > 17) d[17] = v; if (n > 18) d[18] = v; if (n > 19) d[19] = v; if (n > 20) d[20] = v; if (n > 21) d[21] = v; if (n > 22) d[22] = v; if (n > 23) d[23] = v; }
-static inline void irc_memcpy(u8*d,u8*s,u64 n){ if(n==0) return; if(n<=24) irc_smallcpy(d,s,n); else memcpy(d,s,n); }
-static inline void irc_memmove(u8*d,u8*s,u64 n){ if(n==0) return; if(n<=24) irc_smallcpy(d,s,n); else memmove(d,s,n); }
-static inline void irc_memset(u8*d,u8 v,u64 n){ if(n==0) return; if(n<=24) irc_smallset(d,v,n); else memset(d,v,n); }
+static inline void irc_memcpy(u8*d,u8*s,u64 n){ if(n==0) return; if(n<=24 && !__CPROVER_DYNAMIC_OBJECT(d)) irc_smallcpy(d,s,n); else memcpy(d,s,n); }
+static inline void irc_memmove(u8*d,u8*s,u64 n){ if(n==0) return; if(n<=24 && !__CPROVER_DYNAMIC_OBJECT(d)) irc_smallcpy(d,s,n); else memmove(d,s,n); }
+static inline void irc_memset(u8*d,u8 v,u64 n){ if(n==0) return; if(n<=24 && !__CPROVER_DYNAMIC_OBJECT(d)) irc_smallset(d,v,n); else memset(d,v,n); }
 #else
 static inline void irc_memcpy(u8*d,u8*s,u64 n){ if(n) memcpy(d,s,n); }
 static inline void irc_memmove(u8*d,u8*s,u64 n){ if(n) memmove(d,s,n); }
